@@ -40,7 +40,7 @@ for d in sys.argv[1:]:
         "breaks_property": prop,
         "summary": summary,
         "history": history,
-        "origin": "independent sub-agent given only the property text and a scratch worktree (nothing from /verif)" + ({"2": " - second round, told which sites the first round had used", "4": " - third round, told which sites rounds 1-2 had used and pointed at the glue code"}.get(os.environ.get("SEED_ID_OFFSET", ""), "")),
+        "origin": "independent sub-agent given only the property text and a scratch worktree (nothing from /verif)" + ({"2": " - second round, told which sites the first round had used", "4": " - third round, told which sites rounds 1-2 had used and pointed at the glue code", "6": " - fourth round, pointed at scale, configuration, long histories and restart cycles", "8": " - fifth round, told which regions rounds 1-4 had used and asked for two cooperating sites, error/retry/recovery paths, interleavings and unusual inputs"}.get(os.environ.get("SEED_ID_OFFSET", ""), "")),
         "needs_to_manifest": needs or "see README.md",
         "confirmed_by_me": {
             "how": "tools/seed_verify.sh in scratch worktree /tmp/seed-verify-wt: demo.rs as tests/seed_demo_*.rs without the patch (must pass), with the patch (must fail), then the full existing suite with the patch (cargo nextest, must be 691 passed)",
